@@ -54,7 +54,7 @@ def run(ctx):
                         k += 1
                         d = [1, r - 1, r, r + 1, 2 * r + 3][k % 5]
                         if d < 1: d = 1
-                        if b == 1600 and not big: d = min(d, r)
+                        if b == 1600 and not big and r >= 64: d = min(d, r)
                         ev.append(call_event(b, r, d, nist, msg(rnd, LL, (k % 3 == 0) * 2, k % 3), LL if (LL or k % 2) else None)); ctx.mark((b, r, LL, nist, d))
         # a bit length beyond the data must be refused
         ev.append(call_event(b, b // 2, 8, False, b'\x01\x02', 17))
@@ -95,14 +95,21 @@ def run(ctx):
                     out = h.duplex(M, L if L else None, d); e['obs'] = B(out)
                 except Exception as ex: e['raised'] = type(ex).__name__
                 seq.append(e)
+                if j == 1 and rep == 0 and b <= 400:          # a sponge call with a per-call rate between two duplex calls: the duplex state must survive
+                    M2 = msg(rnd, 24, 0, 0); r2 = max(8, r - 8)
+                    e2 = dict(op='call', b=b, r=r2, d=r, nist=True, m=B(M2), bitlen=-1, raised='', obs=[])
+                    try: e2['obs'] = B(h(M2, None, r2))
+                    except Exception as ex: e2['raised'] = type(ex).__name__
+                    seq.append(e2)
             traces.append(dict(ev=seq)); ctx.mark(('duplex', b, r, rep))
     # one long-lived object called at several rates (larger, then smaller, then the configured one): per-call r applies to that call only
     from crysp.keccak import Keccak
-    for b, r0, rs in ((1600, 1088, (1344, None, 1027, 1024, None)), (200, 72, (136, None, 40, None)), (25, 11, (20, 3, None, 24, None))) + (((800, 544, (700, None, 100, None)),) if big else ()):
-        h = Keccak(b=b, r=r0, len=64 if b > 25 else 13); seq = []
+    for b, r0, rs in ((1600, 1088, (1344, None, 1027, 1024, None)), (200, 72, (136, None, 40, None)), (25, 11, (20, 3, None, 24, None)), (200, 72, (40, 136, None)), (1600, 1088, (576, None))) + (((800, 544, (700, None, 100, None)),) if big else ()):
+        dl = (64 if b > 25 else 13) if (b, r0, rs) not in ((200, 72, (40, 136, None)), (1600, 1088, (576, None))) else (256 if b == 200 else 2048)      # the last two: output longer than both rates
+        h = Keccak(b=b, r=r0, len=dl); seq = []
         for j, rr in enumerate(rs):
             M = msg(rnd, 8 * (3 + 7 * j), 0, 0)
-            e = dict(op='call', b=b, r=rr or r0, d=64 if b > 25 else 13, nist=True, m=B(M), bitlen=-1, raised='', obs=[])
+            e = dict(op='call', b=b, r=rr or r0, d=dl, nist=True, m=B(M), bitlen=-1, raised='', obs=[])
             try:
                 out = h(M, None, rr) if rr else h(M); e['obs'] = B(out)
             except Exception as ex: e['raised'] = type(ex).__name__
